@@ -74,9 +74,9 @@ SCOPES = {
             ("expo", _scope(Mode="dist", NGroups={2}, Caps={1, 2}, Socs={1, 2, 3}, BatBnds=bnds({2, 6}, {0, 2}),
                             InvBnds={(-6, 0, 0, 6), (-2, -2, 2, 4)}, Shapes1=ONE, ShapesR=ONE,
                             Mags={2, 9}, Exps={0, 2})),
-            # one group with two inverters and/or two batteries, alone and next to a plain group
+            # one group with two or three inverters and/or two batteries, alone and next to a plain group
             ("multi", _scope(Mode="dist", NGroups={1, 2}, Caps={1}, Socs={0, 3}, BatBnds={(-6, -2, 0, 4), (-4, 0, 3, 6), (-6, -3, 2, 6)},
-                             InvBnds={(-4, -2, 0, 2), (-2, 0, 2, 4), (-4, -1, 1, 4)}, Shapes1={(1, 2), (2, 1), (2, 2)}, ShapesR=ONE,
+                             InvBnds={(-4, -2, 0, 2), (-2, 0, 2, 4), (-4, -1, 1, 4)}, Shapes1={(1, 2), (2, 1), (2, 2), (1, 3)}, ShapesR=ONE,
                              Mags={1, 3, 4, 5, 7, 11}, Exps={1})),
             # 3-4 groups on a finer SoC grid with exclusion bounds: a deficit larger than any single
             # surplus is covered from several donors (partial-cover branch of the deficit loop)
@@ -116,6 +116,10 @@ SCOPES = {
             ("multi", _scope(Mode="dist", NGroups={1, 2}, Caps={1}, Socs={0, 1, 2, 3}, BatBnds={(-6, -2, 0, 4), (-4, 0, 3, 6), (-6, -3, 2, 6)},
                              InvBnds={(-4, -2, 0, 2), (-2, 0, 2, 4), (-4, -1, 1, 4), (-6, 0, 0, 6)}, Shapes1={(1, 2), (2, 1), (2, 2)}, ShapesR=ONE,
                              Mags={1, 2, 3, 4, 5, 7, 9, 11, 14}, Exps={1})),
+            # three inverters behind one or two batteries
+            ("tri", _scope(Mode="dist", NGroups={1, 2}, Caps={1}, Socs={0, 2, 3}, BatBnds={(-6, -2, 0, 4), (-4, 0, 3, 6), (-6, -3, 2, 6)},
+                           InvBnds={(-4, -2, 0, 2), (-2, 0, 2, 4), (-4, -1, 1, 4)}, Shapes1={(1, 3), (2, 3)}, ShapesR=ONE,
+                           Mags={1, 3, 4, 5, 7, 9, 11}, Exps={1})),
             ("multi2", _scope(Mode="dist", NGroups={2}, Caps={1}, Socs={1, 3}, BatBnds={(-6, -2, 0, 4), (-4, 0, 3, 6)},
                               InvBnds={(-4, -2, 0, 2), (-2, 0, 2, 4), (-4, -1, 1, 4)}, Shapes1={(1, 2), (2, 2)}, ShapesR={(1, 2)},
                               Mags={1, 3, 5, 7, 11, 15}, Exps={1, 2})),
@@ -640,9 +644,9 @@ def _run_val(rep: Report, prop: str, work: Path, consts: dict) -> None:
 # antecedents that must have been exercised at least once (vacuity guard), per property
 NEEDED = {
     "C01": ["nonzero_setpoint", "remainder", "supply", "beyond_incl", "multi_inverter", "multi_battery", "manager",
-            "cover_partial_branch", "cover_multi_donor"],
+            "cover_partial_branch", "cover_multi_donor", "third_inverter_powered"],
     "C02": ["nonzero_setpoint", "noheadroom", "allnoheadroom", "at_excl", "at_incl", "multi_inverter", "multi_battery",
-            "cover_partial_branch", "cover_multi_donor", "not_advertised", "inside_enforced_zone", "beyond_incl_noadjust",
+            "cover_partial_branch", "cover_multi_donor", "third_inverter_powered", "not_advertised", "inside_enforced_zone", "beyond_incl_noadjust",
             "rejected_runs"],
     "C17": ["probes", "in_advertised", "contains", "rejected", "excl_differs", "manager", "multi_inverter", "multi_battery"],
 }
